@@ -17,7 +17,7 @@ int crypto_auth(unsigned char *out, const unsigned char *in, unsigned long long 
 #endif
 
 static gbuf_t gIN, gOUT, gKEY;
-static unsigned long long n_special, n_huge_bytes, n_eval, n_model, n_oneshot, n_seq, n_updates, n_zero_updates, n_hist_ops, n_finalize,
+static unsigned long long n_forks, n_special, n_huge_bytes, n_eval, n_model, n_oneshot, n_seq, n_updates, n_zero_updates, n_hist_ops, n_finalize,
     n_ref, n_hmac, n_hmac_stream, n_reinit, n_bytes;
 
 static void digest_mismatch(const char *key, const char *what, const uint8_t *exp, const uint8_t *got)
@@ -133,7 +133,7 @@ static void stream_compositions(const args_t *a, long *idx, int N, int NZ)
 }
 
 #define NST 4
-typedef struct { uint8_t *data; size_t len, cap; int live; /* 0 = not initialised / finalized / freed, 1 = absorbing */ } shadow_t;
+typedef struct { uint8_t *data; size_t len, cap; int live; /* 0 = not initialised / finalized / freed, 1 = absorbing */  int forked; } shadow_t;
 
 static void stream_history(const args_t *a, long idx)
 {
@@ -148,7 +148,7 @@ static void stream_history(const args_t *a, long idx)
         fill_random(&r, (uint8_t *)&st[i], sizeof st[i]);      /* arbitrary prior contents */
         MSAN_POISON(&st[i], sizeof st[i]);
         if (!sh[i].data) { sh[i].cap = 1 << 16; sh[i].data = (uint8_t *)malloc(sh[i].cap); }
-        sh[i].len = 0; sh[i].live = 0;
+        sh[i].len = 0; sh[i].live = 0; sh[i].forked = 0;
     }
     ++n_eval;
     for (op = 0; op < nops; ++op) {
@@ -158,8 +158,8 @@ static void stream_history(const args_t *a, long idx)
         if (hl + 16 < sizeof hist) hl += (size_t)snprintf(hist + hl, sizeof hist - hl, "%d%c", s, "IRuuuuuuFXCC"[what]);
         set_case("{\"h\":\"hash\",\"mode\":\"history\",\"i\":%ld,\"ops\":\"%s\"}", idx, hist);
         switch (what) {
-        case 0: tinyjambu_hash_init(&st[s]); sh[s].len = 0; sh[s].live = 1; break;
-        case 1: tinyjambu_hash_reinit(&st[s]); sh[s].len = 0; sh[s].live = 1; break;
+        case 0: tinyjambu_hash_init(&st[s]); sh[s].len = 0; sh[s].live = 1; sh[s].forked = 0; break;
+        case 1: tinyjambu_hash_reinit(&st[s]); sh[s].len = 0; sh[s].live = 1; sh[s].forked = 0; break;
         case 2: case 3: case 4: case 5: case 6: case 7: {
             size_t n = sizes[rnd(&r, sizeof sizes / sizeof sizes[0])];
             uint8_t *p;
@@ -176,6 +176,7 @@ static void stream_history(const args_t *a, long idx)
         case 8: {
             uint8_t d[32], e[32], mo[32];
             tinyjambu_hash_finalize(&st[s], d);
+            if (sh[s].forked) { sh[s].live = 0; sh[s].forked = 0; break; }
             tinyjambu_hash(e, sh[s].data, sh[s].len);
             ++n_finalize;
             if (memcmp(d, e, 32)) digest_mismatch("history-mismatch:vs-oneshot", "digest of an interleaved history differs from one-shot hash of that state's own bytes", e, d);
@@ -189,12 +190,16 @@ static void stream_history(const args_t *a, long idx)
             memcpy(&st[s], &st[o], sizeof st[s]);
             if (!sh[o].live) MSAN_POISON(&st[o], sizeof st[o]);
             sh[s].live = 0;
+            /* every other time the copy of a LIVE state is used as it is (a forked computation: update / finalize without
+             * init).  What the fork itself computes is not judged - the property does not say - but nothing done to it
+             * may disturb the state it was copied from, which stays live and is judged as before. */
+            if (sh[o].live && !sh[o].forked && what == 11) { sh[s].live = 1; sh[s].forked = 1; sh[s].len = 0; ++n_forks; }
             break; }
         }
     }
     /* drain: every live state is finalized and judged */
     for (i = 0; i < NST; ++i)
-        if (sh[i].live) {
+        if (sh[i].live && !sh[i].forked) {
             uint8_t d[32], e[32];
             tinyjambu_hash_finalize(&st[i], d);
             tinyjambu_hash(e, sh[i].data, sh[i].len);
@@ -328,7 +333,7 @@ static void hmac_case(const args_t *a, long idx, size_t keylen, size_t mlen)
     rng_t r = rng_for(a->seed, 0x43AC, (uint64_t)idx);
     int bc = (int)((keylen + mlen + (size_t)idx) % BC_N), nullmode = (int)(idx & 1);
     uint8_t *key, *in, *out, exp[32], got[32], d2[32];
-    tinyjambu_hmac_state_t st;
+    tinyjambu_hmac_state_t st, other;
     set_case("{\"h\":\"hash\",\"mode\":\"hmac\",\"i\":%ld,\"keylen\":%zu,\"mlen\":%zu,\"bytes\":\"%s\",\"null0\":%d}", idx, keylen, mlen, bc_name[bc], nullmode);
     ++n_eval;
     cls_add(mix64(keylen * 8192 + mlen, (uint64_t)bc));
@@ -369,6 +374,10 @@ static void hmac_case(const args_t *a, long idx, size_t keylen, size_t mlen)
         if (keylen) memcpy(keycopy, key, keylen);
         MSAN_POISON(&st, sizeof st);
         tinyjambu_hmac_init(&st, key, keylen);
+        /* a second, unrelated HMAC object (80-byte key: the hashed-key path) is started now and finished afterwards: two
+         * computations in flight on two objects, one thread */
+        { static uint8_t okey[80]; size_t q; for (q = 0; q < sizeof okey; ++q) okey[q] = (uint8_t)(idx * 7 + q * 3 + 1);
+          MSAN_POISON(&other, sizeof other); tinyjambu_hmac_init(&other, okey, sizeof okey); tinyjambu_hmac_update(&other, okey, 33);
         while (pos < mlen) {
             size_t n = 1 + rnd(&r, 40);
             if (rnd(&r, 5) == 0) n = 0;
@@ -379,6 +388,8 @@ static void hmac_case(const args_t *a, long idx, size_t keylen, size_t mlen)
         tinyjambu_hmac_finalize(&st, keylen ? keycopy : NULL, keylen, d2);
         ++n_hmac_stream;
         if (memcmp(d2, exp, 32)) digest_mismatch("hmac-stream-mismatch", "incremental HMAC differs from the model", exp, d2);
+          { uint8_t eo[32], dother[32]; tinyjambu_hmac_finalize(&other, okey, sizeof okey, dother); tinyjambu_hmac_free(&other);
+            if (idx % 8 == 0) { m_hmac(eo, okey, sizeof okey, okey, 33); ++n_model; if (memcmp(dother, eo, 32)) digest_mismatch("hmac-stream-mismatch:second-object-in-flight", "an HMAC started before and finished after another object's computation differs from the model", eo, dother); } } }
         /* reinit after an arbitrary absorbed prefix, then a fresh message */
         {
             size_t pre = mlen ? rnd(&r, (uint32_t)mlen + 1) : 0;
@@ -548,7 +559,7 @@ int main(int argc, char **argv)
     } else { fprintf(stderr, "bad mode\n"); return 2; }
     emit_stat("evaluations", n_eval); emit_stat("model_digests", n_model); emit_stat("oneshot_hash_calls", n_oneshot);
     emit_stat("update_sequences", n_seq); emit_stat("update_calls", n_updates); emit_stat("zero_length_updates", n_zero_updates);
-    emit_stat("history_ops", n_hist_ops); emit_stat("finalize_judged", n_finalize); emit_stat("bundled_reference_comparisons", n_ref);
+    emit_stat("history_ops", n_hist_ops); emit_stat("states_forked_by_copy_and_used", n_forks); emit_stat("finalize_judged", n_finalize); emit_stat("bundled_reference_comparisons", n_ref);
     emit_stat("hmac_oneshot", n_hmac); emit_stat("hmac_streamed", n_hmac_stream); emit_stat("hmac_reinit_histories", n_reinit);
     emit_stat("input_bytes_hashed_by_model", n_bytes);
     finish();
